@@ -223,5 +223,23 @@ def run(ctx):
             ctx.ob("R5", "%s|%s at the %s cut moves `start` in the same iteration" % (rb.short, callee(t).split("::")[-1],
                                                                                   _ordinal(in_loop, i)), bad is None, rb.where(t["line"]),
                    "cut at bb%d; an iteration through it that never writes `start`: %s" % (i, "none" if bad is None else "exists (loop head bb%d)" % bad))
+    # ---------------------------------------------------------------- R6 by reference
+    ctx.rule("R6", "the buffers keep their structural invariants (C08 R2..R5 and C09 R1..R6 obligations re-evaluated): what the receive "
+                   "buffer stores and hands out, what the send buffer keeps, re-offers and releases")
+    import importlib
+    from qlint import framework as fw
+    known = set((f["property"], f["key"]) for f in fw.load_known().get("findings", []))
+    for pid, keep, floor_n in (("C08", lambda o: o.rule in ("R2", "R3", "R4", "R5"), 15), ("C09", lambda o: True, 30)):
+        sub = fw.Ctx(pid, ctx.tier, ctx.seed, prog)
+        importlib.import_module("rules." + pid).run(sub)
+        n6 = 0
+        for o in sub.obs:
+            if keep(o):
+                if not o.ok and (pid, o.key) in known:
+                    continue
+                n6 += 1
+                ctx.ob("R6", "%s:%s" % (pid, o.key), o.ok, o.where, o.detail)
+        ctx.functions |= sub.functions
+        ctx.floor("R6", "obligations inherited from %s" % pid, n6, floor_n)
     # who else writes the final states
     ctx.assume("BufMap::may_loss / ack_rcvd re-colour exactly the given range (value-level, C09)")
